@@ -98,6 +98,17 @@ type c18Deep struct {
 	L []c18Q    `json:"l"`
 }
 
+// c18PtrDeep: a type first met below a pointer field that has NO omitempty, and used again later
+type c18PtrWrap struct {
+	In c18Leaf `json:"in"`
+}
+type c18PtrDeep struct {
+	A *c18PtrWrap `json:"a"`
+	B c18Leaf     `json:"b"`
+	C []c18Leaf   `json:"c,omitempty"`
+	D *c18PtrWrap `json:"d,omitempty"`
+}
+
 // an embedded struct whose TYPE NAME is unexported: encoding/json still promotes its exported fields
 type c18base struct {
 	ID   int    `json:"id"`
@@ -152,6 +163,14 @@ func c18FieldType(kind string) (reflect.Type, bool) {
 		return reflect.TypeOf((*string)(nil)), false
 	case "ptr-struct":
 		return reflect.TypeOf((*c18Inner)(nil)), false
+	case "ptr-int":
+		return reflect.TypeOf((*int)(nil)), false
+	case "ptr-float64":
+		return reflect.TypeOf((*float64)(nil)), false
+	case "ptr-bool":
+		return reflect.TypeOf((*bool)(nil)), false
+	case "ptr-deep-shared":
+		return reflect.TypeOf(c18PtrDeep{}), false
 	case "slice-string":
 		return reflect.TypeOf([]string(nil)), false
 	case "slice-struct":
